@@ -73,6 +73,21 @@ func runC08(c *Ctx) {
 			if se, isSel := key.(*ast.SelectorExpr); isSel && se.Sel.Name == "key" {
 				ok2 = true // key recorded from the map's own iteration (LRU scratch entries)
 			}
+			// the key an entry records for itself when it is stored (DnsCache.RouteOwnerKey = cacheKey)
+			if core.FieldOf(info, key) == "DnsCache.RouteOwnerKey" {
+				ok2 = true
+			}
+			if id, isId := key.(*ast.Ident); isId && !ok2 {
+				obj := info.ObjectOf(id)
+				ast.Inspect(f.Body, func(k ast.Node) bool {
+					if as, isAs := k.(*ast.AssignStmt); isAs && len(as.Lhs) == 1 && len(as.Rhs) == 1 {
+						if lid, isL := as.Lhs[0].(*ast.Ident); isL && info.ObjectOf(lid) == obj && core.FieldOf(info, as.Rhs[0]) == "DnsCache.RouteOwnerKey" {
+							ok2 = true
+						}
+					}
+					return true
+				})
+			}
 			c.R.Checkf(K, fmt.Sprintf("map-key@%s/%s#%d", short, name, n), c.pos(call.Pos()), ok2, "dnsCache.%s is keyed by %s (a cache-key parameter or the map's own iteration key)", name, why)
 		})
 	}
